@@ -14,12 +14,18 @@ from .bddscript import Store
 def bridge_job(e, p):
     n = p['n']; pre = bool(p.get('pregrounded')); canary = p.get('canary')
     tabs = A.family_tabs(n, p['fam'])
-    def case(m): return {'n': n, 'tabs': tables_from_model(m, [[zb(b) for b in t] for t in tabs]), 'pregrounded': pre}
+    hist = p.get('history', [])
+    def case(m): return {'n': n, 'tabs': tables_from_model(m, [[zb(b) for b in t] for t in tabs]), 'pregrounded': pre, 'history': hist}
     def on_panic(e_, msg):
         m = sat_model(e_, True)
         if m is not None: report(e_, 'panic', what='bridge conversion panics: %s' % msg[:200], case=case(m))
     e.hooks['on_panic'] = on_panic
     bio, rb = semjobs.make_bio_adf(e, tabs, n)
+    for h in hist:          # semantics computed on the biodivine-based object before the bridge is taken (the bridge must not depend on them)
+        if h == 'grounded': e.call('adfbiodivine::Adf::grounded', [rb])
+        elif h in ('complete', 'stable'): A.drain(e, e.call('adfbiodivine::Adf::%s' % h, [rb]))
+        elif h == 'stable_rew': e.call('adfbiodivine::Adf::stable_bdd_representation', [rb])
+        else: raise Unsupported('history step ' + h)
     adf = e.call('adfbiodivine::Adf::hybrid_step', [rb]) if pre else e.call('adfbiodivine::Adf::hybrid_step_opt', [rb, False])
     bdd = adf.f[e.field('Adf', 'bdd')]
     roots = []
@@ -35,6 +41,16 @@ def bridge_job(e, p):
         for s in range(n):
             m = sat_model(e, z3.Or(*[fn[s][a] != zb(tabs[s][a]) for a in range(1 << n)]))
             if m is not None: report(e, 'bridge-function', what='after the bridge, statement %d has a condition that differs from the submitted one' % s, case=case(m))
+    else:
+        # pre-grounded import: the submitted condition with the grounded truth values substituted - equal to the submitted condition on every assignment
+        # that agrees with the grounded interpretation (least fixpoint written as formulas), and independent of the decided statements
+        spec = A.oracle_lfp(p['fam'], tabs, n)
+        agree = [z3.And(*[z3.And(z3.Implies(spec[v][0], z3.BoolVal(bool((a >> v) & 1))), z3.Implies(spec[v][1], z3.BoolVal(not ((a >> v) & 1)))) for v in range(n)]) for a in range(1 << n)]
+        for s in range(n):
+            conds = [z3.And(agree[a], fn[s][a] != zb(tabs[s][a])) for a in range(1 << n)]
+            conds += [z3.And(z3.Or(spec[v][0], spec[v][1]), fn[s][a] != fn[s][a ^ (1 << v)]) for v in range(n) for a in range(1 << n) if not (a >> v) & 1]
+            m = sat_model(e, z3.Or(*conds))
+            if m is not None: report(e, 'bridge-function', what='after the pre-grounded bridge, statement %d does not denote its condition with the grounded values substituted' % s, case=case(m))
     for s in range(n):
         for t in range(s + 1, n):
             differ = z3.Or(*[fn[s][a] != fn[t][a] for a in range(1 << n)])
@@ -60,6 +76,14 @@ def judge(out, case):
     if not case.get('pregrounded'):
         for s in range(n):
             if out['tables'][s] != [int(b) for b in case['tabs'][s]]: probs.append('statement %d: bridged condition differs from the submitted one' % s)
+    else:
+        g = A.py_grounded(case['tabs'], n)
+        for s in range(n):
+            for a in range(1 << n):
+                if all(g[v] == 'u' or (g[v] == 'T') == bool((a >> v) & 1) for v in range(n)) and out['tables'][s][a] != int(case['tabs'][s][a]):
+                    probs.append('statement %d: pre-grounded condition differs from the submitted one under an assignment that agrees with the grounded interpretation %s' % (s, g)); break
+            for v in range(n):
+                if g[v] != 'u' and any(out['tables'][s][a] != out['tables'][s][a ^ (1 << v)] for a in range(1 << n)): probs.append('statement %d still depends on the decided statement %d' % (s, v)); break
     for s in range(n):
         for t in range(s + 1, n):
             if (out['roots'][s] == out['roots'][t]) != (out['tables'][s] == out['tables'][t]): probs.append('statements %d and %d: handle equality and function equality disagree' % (s, t))
@@ -68,19 +92,22 @@ def judge(out, case):
 
 def replay(ctx, v):
     c = v['case']
-    out = ctx.native().call({'cmd': 'bridge_store', 'n': c['n'], 'tabs': c['tabs'], 'pregrounded': c.get('pregrounded', False)}, timeout=30)
+    out = ctx.native().call({'cmd': 'bridge_store', 'n': c['n'], 'tabs': c['tabs'], 'pregrounded': c.get('pregrounded', False), 'history': c.get('history', [])}, timeout=30)
     probs = judge(out, c)
     return ('reproduced', {'native_output': out, 'problems': probs[:5]}) if probs else ('not-reproduced', {'native_output': out})
 
 
 def key(v):
-    c = v['case']; return '%s:%s' % (v['kind'], json.dumps([c['n'], c['tabs'], c.get('pregrounded', False)]))
+    c = v['case']; return '%s:%s' % (v['kind'], json.dumps([c['n'], c['tabs'], c.get('pregrounded', False)] + ([c['history']] if c.get('history') else [])))
 
 
 def jobs(tier, rng):
     out = []; mod = 'harness.c06bridge'
     for pre in (False, True):
         out.append(Job('bridge-n2-all%s' % ('-pregrounded' if pre else ''), mod, 'bridge_job', {'n': 2, 'fam': ['sym', 'sym'], 'pregrounded': pre}, stop_after_violations=40))
+    # the same after semantics were computed on the biodivine-based object (its answers may be memoised inside the object; the bridge must not change)
+    for hist in (['stable_rew'], ['grounded', 'stable'], ['complete', 'stable_rew']):
+        out.append(Job('bridge-n2-all-pregrounded-after-%s' % '+'.join(hist), mod, 'bridge_job', {'n': 2, 'fam': ['sym', 'sym'], 'pregrounded': True, 'history': hist}, stop_after_violations=40))
     for i, fam in enumerate(semjobs.families(3, 1, rng, 3 if tier == 'quick' else 10)):
         out.append(Job('bridge-n3-%d' % i, mod, 'bridge_job', {'n': 3, 'fam': fam, 'pregrounded': i % 3 == 2}, stop_after_violations=40))
     if tier == 'thorough':
